@@ -25,7 +25,10 @@ fn main() {
     run.floor("solves judged by O1", run.evaluations(), run.by_tier(60, 400));
     run.floor("distinct non-trivial (problem shape, config shape) pairs", run.distinct_nontrivial(), 20);
     run.floor("solutions with unassigned jobs", run.observed("rule_binding", "conservation"), 5);
-    for f in ["pickup-delivery", "reloads", "breaks", "mixed-job", "clustering", "recharge", "required-breaks"] {
+    run.assume("relation phases: relations are sub-sequences of a feasible tour of the same problem solved without clustering (relation jobs are documented to stay outside clusters)");
+    run.floor("relations phase (locked jobs)", run.observed("phase", "relations"), run.by_tier(5, 50));
+    run.floor("relations on top of vicinity clustering", run.observed("phase", "relations+clustering"), run.by_tier(5, 50));
+    for f in ["pickup-delivery", "reloads", "breaks", "mixed-job", "clustering", "clustering-filtering", "recharge", "required-breaks"] {
         run.floor(&format!("feature '{f}' in workload"), run.observed("features", f), 3);
     }
     run.finish();
